@@ -40,6 +40,11 @@ pub struct Local {
     pub d1: [f64; 2],
     /// second partials [[ll, lr], [rl, rr]]
     pub d2: [[f64; 2]; 2],
+    /// conditioning of the rule at this point: the relative rounding error of a float
+    /// evaluation is about machine epsilon times this factor (>= 1). Large for extrapolation
+    /// far outside the nodes and for zero-rate interpolation with a very short first interval
+    /// (rates = -ln(y)/t with tiny t are huge and are multiplied back by a long time).
+    pub cond: f64,
 }
 
 fn power_form(y1: f64, y2: f64, a: f64, b: f64) -> (f64, [f64; 2], [[f64; 2]; 2]) {
@@ -57,13 +62,17 @@ pub fn evaluate(rule: Rule, times: &[i64], values: &[f64], x: i64) -> Local {
     let (y1, y2) = (values[index], values[index + 1]);
     let xf = x as f64;
     let zero2 = [[0.0; 2]; 2];
+    let mut cond = 1.0;
     let (value, d1, d2) = match rule {
         Rule::Linear => {
             let w = (xf - x1) / (x2 - x1);
-            (y1 + (y2 - y1) * w, [1.0 - w, w], zero2)
+            let v = y1 + (y2 - y1) * w;
+            cond = 1.0 + (y1.abs() + (y2 - y1).abs() * w.abs()) / v.abs().max(1e-300);
+            (v, [1.0 - w, w], zero2)
         }
         Rule::LogLinear => {
             let w = (xf - x1) / (x2 - x1);
+            cond = 1.0 + y1.ln().abs() + (y2.ln() - y1.ln()).abs() * w.abs();
             power_form(y1, y2, 1.0 - w, w)
         }
         Rule::LinearZeroRate => {
@@ -71,9 +80,12 @@ pub fn evaluate(rule: Rule, times: &[i64], values: &[f64], x: i64) -> Local {
             let (t1, t2, t) = (x1 - x0, x2 - x0, xf - x0);
             if index == 0 {
                 // first node presumed 1: flat zero rate of the second node over the first interval
+                cond = 1.0 + y2.ln().abs() * (t / t2).abs();
                 power_form(y1, y2, 0.0, t / t2)
             } else {
                 let w = (t - t1) / (t2 - t1);
+                let (r1, r2) = (y1.ln().abs() / t1, y2.ln().abs() / t2);
+                cond = 1.0 + t.abs() * (r1 * (1.0 + w.abs()) + r2 * w.abs());
                 power_form(y1, y2, (1.0 - w) * t / t1, w * t / t2)
             }
         }
@@ -92,5 +104,5 @@ pub fn evaluate(rule: Rule, times: &[i64], values: &[f64], x: i64) -> Local {
             }
         }
     };
-    Local { index, value, d1, d2 }
+    Local { index, value, d1, d2, cond }
 }
